@@ -141,7 +141,9 @@ def run(ctx):
                         b = H.strip_block(arm["body"])
                         if not (b.get("k") == "cast" and H.ctor(b["e"]) == H.pat_ctor(arm["pat"])):
                             okser = False
-            ctx.oblige("C15|repr|%s|ser" % short, okser and T.impl_kind(de) == "Deserialize_repr", "%s: encoder does not emit each variant's own discriminant" % short, cfg=cfg)
+            ctx.oblige("C15|repr|%s|ser" % short, okser, "%s: encoder does not emit each variant's own discriminant" % short, cfg=cfg)
+            ctx.oblige("C15|repr|%s|de-derived" % short, T.impl_kind(de) == "Deserialize_repr",
+                       "%s is encoded by serde_repr but decoded by a hand-written impl: the two directions no longer share one discriminant table" % short, cfg=cfg)
             try:
                 _, rows = T.conversion_table(de, F)
                 acc = {}
